@@ -303,7 +303,7 @@ func (m *Muxer) WriteData(d *MuxerData) (int, error) {
 				}
 			}
 
-			n, err = writePacket(m.bitsWriter, &pkt, m.packetSize)
+			n, err = m.writePacket(&pkt)
 			if err != nil {
 				return bytesWritten, err
 			}
@@ -314,7 +314,7 @@ func (m *Muxer) WriteData(d *MuxerData) (int, error) {
 		} else {
 			// Adaptation field only packet: the continuity counter is not incremented
 			pkt.Header.ContinuityCounter = uint8(ctx.cc.get()) & 0xf
-			n, err = writePacket(m.bitsWriter, &pkt, m.packetSize)
+			n, err = m.writePacket(&pkt)
 			if err != nil {
 				return bytesWritten, err
 			}
@@ -333,7 +333,17 @@ func (m *Muxer) WriteData(d *MuxerData) (int, error) {
 // Writes given packet to MPEG-TS stream
 // Stuffs with 0xffs if packet turns out to be shorter than target packet length
 func (m *Muxer) WritePacket(p *Packet) (int, error) {
-	return writePacket(m.bitsWriter, p, m.packetSize)
+	return m.writePacket(p)
+}
+
+// writePacket writes a packet to the muxer's writer
+// A bits writer whose Write failed keeps the bits of the byte it could not flush: it's replaced by a fresh one, so that
+// the packets written once the writer works again start from a clean state
+func (m *Muxer) writePacket(p *Packet) (n int, err error) {
+	if n, err = writePacket(m.bitsWriter, p, m.packetSize); err != nil {
+		m.bitsWriter = astikit.NewBitsWriter(astikit.BitsWriterOptions{Writer: m.w})
+	}
+	return
 }
 
 func (m *Muxer) retransmitTables(force bool) (int, error) {
